@@ -87,6 +87,23 @@ CHECKS = {
         technique="Lean 4 proof (frame discipline lemmas on the reference semantics) + end-to-end differential call-graph "
                   "suites",
         ref="DESIGN.md §6 C08"),
+    "C02": dict(
+        text="Lean 4 theorems (CbProps/C02.lean) about parse, a table-driven model of the parser's precedence ladder "
+             "(ternary on top, one left-associative loop per binary level, prefix unary, parenthesised primary): for EVERY "
+             "well-formed table and every token string that denotes a tree with redundant parentheses anywhere (inductive "
+             "grammar Derives), the parser returns exactly that tree (parse_of_derives, by induction on derivations with "
+             "fuel monotonicity); corollaries parse_printMin, parse_printFull, paren_invariance, min_eq_full. Obligations "
+             "(decide) on the table regenerated from expression_parser.cpp / parseTernary on every run: ladder_is_spec "
+             "(equals the specification table) and ladder_wf. Correspondence: every expression over all ordered operator "
+             "pairs (triples in thorough) and random trees, printed with minimal, full and random redundant parentheses, "
+             "must evaluate to the reference value in the interpreter built from the working tree.",
+        note="Trusted: translator tools/translate/ladder.py (recognises the level functions' `left = next(); while "
+             "(check..)` shape; anything else is reported as a failed obligation), the differential harness. Postfix "
+             "chains beyond [ ] and ( ), casts, await/try are outside the ladder model. `a < b > (c)` with an identifier b "
+             "is a generic call by the grammar and is excluded from generated programs.",
+        technique="Lean 4 proof (parser correct w.r.t. an inductive grammar, for all tables) + translator-regenerated table "
+                  "with decide obligations + exhaustive operator-pair differential suite",
+        ref="DESIGN.md §6 C02"),
 }
 
 PENDING = {}
